@@ -483,7 +483,8 @@ def r166(ctx, fx, rid_name="R16.6"):
                    "recorded` survives the pass, the usage database does not: from the second pass on the memo answers and the final database misses the entry; rename, "
                    "references and highlights then leave occurrences out)")
     from .c11 import _anc_walk
-    ALLOWED = ("options", "symbols", "analysis")
+    # (where in the scope tree the generator stands is part of what the program says there, not something remembered)
+    ALLOWED = ("options", "symbols", "analysis", "current_scope", "current_scope_nx")
     n = 0
     for f in sorted(fx.all_fns("mos_core"), key=lambda f: f.path):
         if f.kind == "closure" or not f.d.get("hir") or "::tests::" in f.path or not f.path.startswith("mos_core::codegen::CodegenContext::"):
@@ -496,7 +497,7 @@ def r166(ctx, fx, rid_name="R16.6"):
                     if q.get("k") == "bind":
                         lets.setdefault(q["name"], []).append(y["init"])
 
-        def state_fields(e, depth=0, seen=None):
+        def state_fields(e, depth=0, seen=None, site=None):
             """fields of `self` (other than the allowed ones) that the expression reads, through locals"""
             seen = seen if seen is not None else set()
             out = set()
@@ -509,22 +510,25 @@ def r166(ctx, fx, rid_name="R16.6"):
                     if nm in lets and nm not in seen:
                         seen.add(nm)
                         for i in lets[nm]:
-                            out |= state_fields(i, depth + 1, seen)
+                            # (a shadowing `let x = match x { … }` whose initialiser contains the call itself is not where the tested value comes from)
+                            if site is not None and any(z is site for z in lib.hwalk(i)):
+                                continue
+                            out |= state_fields(i, depth + 1, seen, site)
             return out
         for x, anc in _anc_walk(body):
-            if not (x.get("k") == "mcall" and x.get("name") in ("add_symbol_usage", "add_definition", "set_definition") and
+            if not (x.get("k") == "mcall" and x.get("name") in ("add_symbol_usage", "add_definition", "set_definition", "remove_definition") and
                     "Analysis" in str(x.get("path", ""))):
                 continue
             n += 1
             bad = set()
             for p_, key in anc:
                 if p_.get("k") == "if" and key in ("then", "else"):
-                    bad |= state_fields(p_["cond"])
+                    bad |= state_fields(p_["cond"], site=x)
                 if p_.get("k") == "match" and key == "arms":
-                    bad |= state_fields(p_["scrut"])
+                    bad |= state_fields(p_["scrut"], site=x)
                     for a in p_["arms"]:
                         if a.get("guard") is not None and any(y is x for y in lib.hwalk(a["body"])):
-                            bad |= state_fields(a["guard"])
+                            bad |= state_fields(a["guard"], site=x)
             key = "%s|%s#%d" % (f.path, x.get("name"), n)
             ctx.inst(rid, key, sample={"fn": f.path, "line": x.get("ln"), "depends_on_context_fields": sorted(bad)})
             if bad:
